@@ -1,5 +1,7 @@
 import Verif.Generated.FactsOK.Common
+import Verif.Generated.FactsOK.SrcAnalyzer
 import Verif.Properties.C14
+import Verif.Generated.FactsOK.C11
 
 namespace Generated
 
@@ -10,5 +12,11 @@ theorem c14_facts : C14.FactsOK facts where
 theorem C14_current (d : J) (hn : C14.PathsNodup d) (method path : String) :
     Ops.operationFor facts d method path = Spec.Ops.operationFor d method path :=
   C14.operationFor_exact facts c14_facts d hn method path
+
+/-- the required unions for the code as it is now (they rest on the facts of C11) -/
+theorem C14_required_current (d : J) (hwf : C11.WF d) (s : String) :
+    s ∈ (Analyzer.analyze facts d).filterMap IndexProof.selConsumes ↔
+      s ∈ d.getStrs "consumes" ∨ ∃ o ∈ Spec.Index.operations d, s ∈ o.2.2.2.getStrs "consumes" :=
+  C14.required_consumes_union facts c11_facts d hwf s
 
 end Generated
